@@ -494,7 +494,8 @@ func newTeletextPageBuffer(page int, cd *teletextCharacterDecoder) *teletextPage
 	return &teletextPageBuffer{
 		cd:             cd,
 		magazineNumber: uint8(page / 100),
-		pageNumber:     page % 100,
+		// Page numbers are made of 2 hexadecimal digits
+		pageNumber: (page%100/10)<<4 | page%10,
 	}
 }
 
@@ -635,7 +636,8 @@ func (b *teletextPageBuffer) parsePacketHeader(i []byte, magazineNumber uint8, t
 	if !ok {
 		return
 	}
-	pageNumber := int(pageNumberTens)*10 + int(pageNumberUnits)
+	// Tens and units are hexadecimal digits, therefore "1A" must not be mistaken for "20"
+	pageNumber := int(pageNumberTens)<<4 | int(pageNumberUnits)
 
 	// 0xff is a reserved page number value
 	if pageNumberTens == 0xf && pageNumberUnits == 0xf {
@@ -655,7 +657,7 @@ func (b *teletextPageBuffer) parsePacketHeader(i []byte, magazineNumber uint8, t
 		if subtitleFlag {
 			b.magazineNumber = magazineNumber
 			b.pageNumber = pageNumber
-			log.Printf("astisub: no teletext page specified, using page %d%.2d", b.magazineNumber, b.pageNumber)
+			log.Printf("astisub: no teletext page specified, using page %d%.2x", b.magazineNumber, b.pageNumber)
 		}
 	}
 
